@@ -23,7 +23,7 @@ type C16Case struct {
 
 var c16Types = []string{rig.TLogon, rig.TLogout, rig.THeartbeat, rig.TTestRequest, rig.TResendRequest}
 var c16Damages = []string{"checksum", "bodylength", "field", "seqtext", "seqtext+checksum", "noseq+checksum", "noseq+bodylength", "state"}
-var c16States = []string{"waiting", "logged", "afterlogout"}
+var c16States = []string{"waiting", "logged", "afterlogout", "probing"} // probing: logged on, the session's own TestRequest is unanswered
 
 func genC16(t *rapid.T) *C16Case {
 	cfg := genCfg(t, "")
@@ -56,6 +56,12 @@ func genC16(t *rapid.T) *C16Case {
 		if c.State == "afterlogout" {
 			add(rig.Step{Op: "in", In: g.logout()})
 		}
+		if c.State == "probing" {
+			// the peer stays silent until the session has sent its TestRequest; the
+			// invalid message is the first thing the peer says afterwards
+			T := int64(tolT(g.hb))
+			add(rig.Step{Op: "advance", Dt: T + T/10 + 1e6})
+		}
 	} else if rapid.Bool().Draw(t, "noise") {
 		// a refused/ignored message first
 		add(rig.Step{Op: "in", In: g.app()})
@@ -74,7 +80,8 @@ func genC16(t *rapid.T) *C16Case {
 	default:
 		m = g.resend(1, 1)
 	}
-	permitted := (c.State == "logged") != (c.Type == rig.TLogon) // valid Logon only when not logged on; others only when logged on
+	loggedOn := c.State == "logged" || c.State == "probing"
+	permitted := loggedOn != (c.Type == rig.TLogon) // valid Logon only when not logged on; others only when logged on
 	if c.Damage == "state" && permitted {
 		c.Damage = "checksum" // this (type,state) pair is permitted: fall back to real damage
 	}
@@ -88,9 +95,19 @@ func genC16(t *rapid.T) *C16Case {
 		case c.Type == rig.TResendRequest && rapid.Bool().Draw(t, "ownField"):
 			m.Fields[0] = rig.F(rig.TagBeginSeqNo, "x1")
 		case c.Type == rig.TLogon && rapid.Bool().Draw(t, "ownField"):
-			m.Fields[1] = rig.F(rig.TagHeartBtInt, "3O")
+			if rapid.Bool().Draw(t, "ownCounter") {
+				// the count field of the Logon's own repeating group (NoMsgTypes)
+				m.Fields = append(m.Fields, rig.F("384", rapid.SampledFrom([]string{"x", "1x", "two"}).Draw(t, "badCount")))
+			} else {
+				m.Fields[1] = rig.F(rig.TagHeartBtInt, "3O")
+			}
 		default:
-			m.PreSeq = append(m.PreSeq, rig.F("369", "n/a"))
+			if rapid.Bool().Draw(t, "hdrCounter") {
+				// the count field of the header's repeating group (NoHops)
+				m.PreSeq = append(m.PreSeq, rig.F("627", rapid.SampledFrom([]string{"x", "1x", "two"}).Draw(t, "badHops")))
+			} else {
+				m.PreSeq = append(m.PreSeq, rig.F("369", "n/a"))
+			}
 		}
 	case "seqtext":
 		m.Seq = rapid.SampledFrom([]string{"abc", "1x", "", " 7"}).Draw(t, "seqText")
@@ -108,7 +125,7 @@ func genC16(t *rapid.T) *C16Case {
 	c.BadStep = len(c.Steps)
 	add(rig.Step{Op: "in", In: m})
 	// valid traffic that follows
-	if c.State == "logged" {
+	if loggedOn {
 		add(rig.Step{Op: "in", In: g.testRequest("after")})
 		filler(rapid.IntRange(0, 2).Draw(t, "suffix"))
 	} else {
@@ -142,6 +159,9 @@ func checkC16(c *C16Case, rec *evid.Rec) (vs []pbt.Violation) {
 				v.Key = key(v.Key)
 				vs = append(vs, v)
 			}
+			if c.State == "probing" {
+				loggedBefore = true // IsLogged is false while the session's TestRequest is unanswered, yet the session is logged on: it must be afterwards
+			}
 			if res.Logged != loggedBefore {
 				vs = append(vs, pbt.V(key("logged-changed"), "the invalid %s (%s) changed IsLogged from %v to %v", c.Type, c.Damage, loggedBefore, res.Logged))
 			}
@@ -154,7 +174,7 @@ func checkC16(c *C16Case, rec *evid.Rec) (vs []pbt.Violation) {
 				break
 			}
 			followedUp = true
-			if c.State == "logged" {
+			if c.State == "logged" || c.State == "probing" {
 				ok := len(fresh) == 1 && fresh[0].Type == rig.THeartbeat
 				if ok {
 					id, _ := fresh[0].Get(rig.TagTestReqID)
